@@ -109,6 +109,9 @@ func propC08(c *Ctx, r *Report) {
 	r.floor("scope.leaveclean", 1)
 	r.Clauses = append(r.Clauses, "attributes survive a copy (E96): where the lowerer marks a declared name in a per-name attribute table (map[string]bool) under a test of how the initialiser is spelled, the same function consults that table for an initialiser that is itself a name - `let q = p` of a pointer binding p is a pointer binding")
 	c.runAliasClosure(r, "attr.aliasclosure", "wgsl/internal/lower")
+	r.Clauses = append(r.Clauses, "pointer values through the load rule (E101): a lowerer function that lowers a sub-expression for reference, passes the handle through the load rule and makes the result a value operand of an IR expression (the vector of a swizzle, an operand of arithmetic) compares the result with what it passed in or asks whether the handle is a pointer - `(*p)` with p a pointer parameter stays a pointer")
+	c.runForRefValueUse(r, "forref.valueuse", "wgsl/internal/lower")
+	r.floor("forref.valueuse", 1)
 	r.floor("lookup.functionScopeTables", 5)
 	r.Clauses = append(r.Clauses, "template list ends (E49): every expectation of the '>' that closes a template list goes through the one helper that also splits '>>', '>=' and '>>='")
 	c.runTemplateClose(r, "template.close", "wgsl/internal/parser")
